@@ -457,6 +457,257 @@ theorem C16_angle_shift_sub (τ ε : Rat) (hτ : 0 < τ) (hε0 : 0 ≤ ε) (hε 
   have := C16_angle_shift τ ε hτ hε0 hε i hi hl (-k)
   simpa [addAngle, subAngle, sub_eq_add_neg] using this
 
+/-! ### histories: setters after construction / after queries, results fed into further operations -/
+
+/-- Whatever a step returns is a valid interval (every result passes through `mk` or a checking setter). -/
+theorem C16_step_valid (rnd : Int → Rat → Rat) (i : I) (hi : Valid i) (op : Op) (r : I)
+    (h : step rnd i op = .ok r) : Valid r := by
+  cases op with
+  | setStart x =>
+    simp only [step, setStart] at h
+    split at h
+    · cases h; assumption
+    · cases h
+  | setEnd x =>
+    simp only [step, setEnd] at h
+    split at h
+    · cases h; assumption
+    · cases h
+  | add k => exact (C16_mk_valid _ _ r h).1
+  | sub k => exact (C16_mk_valid _ _ r h).1
+  | mul k =>
+    simp only [step, mul] at h
+    split at h <;> exact (C16_mk_valid _ _ r h).1
+  | div k =>
+    simp only [step, div] at h
+    split at h
+    · cases h
+    · split at h <;> exact (C16_mk_valid _ _ r h).1
+  | round n => exact (C16_mk_valid _ _ r h).1
+  | inter j =>
+    simp only [step, intersection] at h
+    split at h
+    · unfold mk at h
+      split at h
+      · simp only [Except.map] at h; cases h; assumption
+      · simp [Except.map] at h
+    · simp only [Except.map] at h; cases h; exact hi
+
+/-- A raising step leaves the object as it was (definitional: documents `after`). -/
+theorem C16_failed_step_keeps (i : I) (e : Err) : after i (.error e) = i := rfl
+
+/-- Steps that are admissible whatever the current bounds: shifting, scaling, dividing by a non-zero number,
+    rounding, intersecting with a valid interval. (The setters are admissible only if they do not cross.) -/
+def Admissible : Op → Prop
+  | .setStart _ => False
+  | .setEnd _ => False
+  | .div k => k ≠ 0
+  | .inter j => Valid j
+  | _ => True
+
+/-- None of the admissible operations raises, on any valid interval, and the result is valid. -/
+theorem C16_step_total (rnd : Int → Rat → Rat) (hm : ∀ n a b, a ≤ b → rnd n a ≤ rnd n b) (i : I) (hi : Valid i)
+    (op : Op) (ha : Admissible op) : ∃ r, step rnd i op = .ok r ∧ Valid r := by
+  cases op with
+  | setStart x => exact absurd ha (by simp [Admissible])
+  | setEnd x => exact absurd ha (by simp [Admissible])
+  | add k => obtain ⟨r, h, hv, _⟩ := C16_add_image i k hi; exact ⟨r, h, hv⟩
+  | sub k => obtain ⟨r, h, hv, _⟩ := C16_sub_image i k hi; exact ⟨r, h, hv⟩
+  | mul k => obtain ⟨r, h, hv, _⟩ := C16_mul_image i k hi; exact ⟨r, h, hv⟩
+  | div k => obtain ⟨r, h, hv, _⟩ := C16_div_image i k hi ha; exact ⟨r, h, hv⟩
+  | round n => obtain ⟨r, h, hv, _⟩ := C16_round_image (rnd n) (hm n) i hi; exact ⟨r, h, hv⟩
+  | inter j =>
+    rcases C16_inter_spec i j hi ha with ⟨k, h, hv, _⟩ | ⟨h, _⟩
+    · exact ⟨k, by simp [step, h, Except.map], hv⟩
+    · exact ⟨i, by simp [step, h, Except.map], hi⟩
+
+/-- The setters raise exactly when the new bound would cross the other one; otherwise they store it. -/
+theorem C16_setter_steps (rnd : Int → Rat → Rat) (i : I) (x : Rat) :
+    (x ≤ i.hi → step rnd i (.setStart x) = .ok ⟨x, i.hi⟩) ∧ (i.hi < x → step rnd i (.setStart x) = .error .assert) ∧
+    (i.lo ≤ x → step rnd i (.setEnd x) = .ok ⟨i.lo, x⟩) ∧ (x < i.lo → step rnd i (.setEnd x) = .error .assert) := by
+  refine ⟨fun h => by simp [step, setStart, h], fun h => by simp [step, setStart, not_le.mpr h],
+          fun h => by simp [step, setEnd, h], fun h => by simp [step, setEnd, not_le.mpr h]⟩
+
+/-- Over ANY history (setters, arithmetic, rounding, intersections, in any order, failing steps included) the
+    object stays a valid interval, and so is every value a step returns. -/
+theorem C16_history_valid (rnd : Int → Rat → Rat) (ops : List Op) : ∀ (i : I), Valid i →
+    Valid (finalOps rnd i ops) ∧ ∀ r ∈ runOps rnd i ops, ∀ j, r = .ok j → Valid j := by
+  induction ops with
+  | nil => intro i hi; exact ⟨hi, by simp [runOps]⟩
+  | cons op ops ih =>
+    intro i hi
+    have hnext : Valid (after i (step rnd i op)) := by
+      cases hs : step rnd i op with
+      | ok j => exact C16_step_valid rnd i hi op j hs
+      | error e => exact hi
+    obtain ⟨h1, h2⟩ := ih _ hnext
+    refine ⟨h1, ?_⟩
+    intro r hr j hj
+    simp only [runOps, List.mem_cons] at hr
+    rcases hr with hr | hr
+    · subst hr; exact C16_step_valid rnd i hi op j hj
+    · exact h2 r hr j hj
+
+/-- A history of admissible steps never raises. -/
+theorem C16_history_total (rnd : Int → Rat → Rat) (hm : ∀ n a b, a ≤ b → rnd n a ≤ rnd n b) (ops : List Op) :
+    ∀ (i : I), Valid i → (∀ op ∈ ops, Admissible op) → ∀ r ∈ runOps rnd i ops, ∃ j, r = .ok j := by
+  induction ops with
+  | nil => intro i _ _ r hr; simp [runOps] at hr
+  | cons op ops ih =>
+    intro i hi hall r hr
+    obtain ⟨j, hj, hv⟩ := C16_step_total rnd hm i hi op (hall op (by simp))
+    simp only [runOps, List.mem_cons] at hr
+    rcases hr with hr | hr
+    · exact ⟨j, by rw [hr, hj]⟩
+    · rw [hj] at hr
+      exact ih j hv (fun o ho => hall o (by simp [ho])) r hr
+
+/-- The point map of an affine step. -/
+def ptOp : Op → Rat → Rat
+  | .add k, x => x + k
+  | .sub k, x => x - k
+  | .mul k, x => x * k
+  | .div k, x => x / k
+  | _, x => x
+
+def Affine : Op → Prop
+  | .add _ => True
+  | .sub _ => True
+  | .mul _ => True
+  | .div k => k ≠ 0
+  | _ => False
+
+/-- Results fed into further operations: after any chain of `+ - * /` (either sign, non-zero divisors) the
+    object denotes exactly the image of the original set under the composed point map. -/
+theorem C16_chain_image (rnd : Int → Rat → Rat) (ops : List Op) : ∀ (i : I), Valid i → (∀ op ∈ ops, Affine op) →
+    Valid (finalOps rnd i ops) ∧
+      ∀ y, Mem (finalOps rnd i ops) y ↔ ∃ x, Mem i x ∧ y = ops.foldl (fun v op => ptOp op v) x := by
+  induction ops with
+  | nil =>
+    intro i hi _
+    refine ⟨hi, fun y => ⟨fun h => ⟨y, h, rfl⟩, ?_⟩⟩
+    rintro ⟨x, h, e⟩
+    simp only [List.foldl_nil] at e
+    subst e; exact h
+  | cons op ops ih =>
+    intro i hi hall
+    have haff := hall op (by simp)
+    have hstep : ∃ r, step rnd i op = .ok r ∧ Valid r ∧ ∀ y, Mem r y ↔ ∃ x, Mem i x ∧ y = ptOp op x := by
+      cases op with
+      | add k => exact C16_add_image i k hi
+      | sub k => exact C16_sub_image i k hi
+      | mul k => exact C16_mul_image i k hi
+      | div k => exact C16_div_image i k hi haff
+      | setStart x => exact absurd haff (by simp [Affine])
+      | setEnd x => exact absurd haff (by simp [Affine])
+      | round n => exact absurd haff (by simp [Affine])
+      | inter j => exact absurd haff (by simp [Affine])
+    obtain ⟨r, hr, hv, himg⟩ := hstep
+    obtain ⟨h1, h2⟩ := ih r hv (fun o ho => hall o (by simp [ho]))
+    simp only [finalOps, hr, after, List.foldl_cons]
+    refine ⟨h1, fun y => ?_⟩
+    rw [h2 y]
+    constructor
+    · rintro ⟨z, hz, e⟩
+      obtain ⟨x, hx, ez⟩ := (himg z).1 hz
+      exact ⟨x, hx, by rw [e, ez]⟩
+    · rintro ⟨x, hx, e⟩
+      exact ⟨ptOp op x, (himg _).2 ⟨x, hx, rfl⟩, e⟩
+
+/-- Scaling and then dividing by the same non-zero number (either sign) gives the interval back. -/
+theorem C16_mul_div_cancel (i : I) (hi : Valid i) (k : Rat) (hk : k ≠ 0) :
+    (mul i k).bind (fun r => div r k) = .ok i := by
+  unfold Valid at hi
+  rcases lt_or_gt_of_ne hk with h | h
+  · have hv : i.hi * k ≤ i.lo * k := mul_le_mul_of_nonpos_right hi (le_of_lt h)
+    have e1 : i.lo * k / k = i.lo := by field_simp
+    have e2 : i.hi * k / k = i.hi := by field_simp
+    simp [mul, div, mk, hv, hk, not_lt.mpr (le_of_lt h), Except.bind, e1, e2, hi]
+  · have hv : i.lo * k ≤ i.hi * k := mul_le_mul_of_nonneg_right hi (le_of_lt h)
+    have e1 : i.lo * k / k = i.lo := by field_simp
+    have e2 : i.hi * k / k = i.hi := by field_simp
+    simp [mul, div, mk, hv, hk, h, Except.bind, e1, e2, hi]
+
+theorem C16_add_sub_cancel (i : I) (hi : Valid i) (k : Rat) : (add i k).bind (fun r => sub r k) = .ok i := by
+  unfold Valid at hi
+  simp [add, sub, mk, hi, Except.bind]
+
+/-! ### setters and histories of angle intervals -/
+
+/-- What the object of an `AngleInterval` satisfies at any time: both bounds in `[-τ, τ]`, start ≤ end. -/
+def InRange (τ : Rat) (i : I) : Prop := -τ ≤ i.lo ∧ i.lo ≤ i.hi ∧ i.hi ≤ τ
+
+/-- The `AngleInterval` setters store the bound iff it is a valid orientation and does not cross the other bound,
+    and raise (leaving the object alone) otherwise. -/
+theorem C16_angle_setters (τ : Rat) (i : I) (x : Rat) :
+    (setStartAngle τ i x = if -τ ≤ x ∧ x ≤ τ ∧ x ≤ i.hi then .ok ⟨x, i.hi⟩ else .error .assert) ∧
+    (setEndAngle τ i x = if -τ ≤ x ∧ x ≤ τ ∧ i.lo ≤ x then .ok ⟨i.lo, x⟩ else .error .assert) := by
+  constructor
+  · unfold setStartAngle validOrientation
+    by_cases h1 : -τ ≤ x <;> by_cases h2 : x ≤ τ <;> by_cases h3 : x ≤ i.hi <;> simp [h1, h2, h3]
+  · unfold setEndAngle validOrientation
+    by_cases h1 : -τ ≤ x <;> by_cases h2 : x ≤ τ <;> by_cases h3 : i.lo ≤ x <;> simp [h1, h2, h3]
+
+theorem mkAngle_ok_inRange (τ s e : Rat) (r : I) (h : mkAngle τ s e = .ok r) : InRange τ r ∧ r.hi - r.lo < τ := by
+  unfold mkAngle at h
+  simp only [] at h
+  split at h
+  · cases h
+  · split at h
+    · cases h
+    · split at h
+      · cases h
+      · split at h
+        · cases h
+        · cases h
+          rename_i c1 c2 c3 c4
+          simp only [validOrientation, Bool.and_eq_true, decide_eq_true_eq, not_not] at c1 c2 c3 c4
+          exact ⟨⟨c2.1, c4, c3.2⟩, c1⟩
+
+/-- Every step of a history on an angle interval keeps the bounds in `[-τ, τ]` with start ≤ end. -/
+theorem C16_angle_step_inRange (τ : Rat) (i : I) (hi : InRange τ i) (op : OpA) (r : I) (h : stepA τ i op = .ok r) :
+    InRange τ r := by
+  obtain ⟨h1, h2, h3⟩ := hi
+  cases op with
+  | setStart x =>
+    simp only [stepA, (C16_angle_setters τ i x).1] at h
+    split at h
+    · cases h; rename_i c; exact ⟨c.1, c.2.2, h3⟩
+    · cases h
+  | setEnd x =>
+    simp only [stepA, (C16_angle_setters τ i x).2] at h
+    split at h
+    · cases h; rename_i c; exact ⟨h1, c.2.2, c.2.1⟩
+    · cases h
+  | add k => exact (mkAngle_ok_inRange τ _ _ r h).1
+  | sub k => exact (mkAngle_ok_inRange τ _ _ r h).1
+
+theorem C16_angle_history_inRange (τ : Rat) (ops : List OpA) : ∀ (i : I), InRange τ i →
+    InRange τ (finalOpsA τ i ops) ∧ ∀ r ∈ runOpsA τ i ops, ∀ j, r = .ok j → InRange τ j := by
+  induction ops with
+  | nil => intro i hi; exact ⟨hi, by simp [runOpsA]⟩
+  | cons op ops ih =>
+    intro i hi
+    have hnext : InRange τ (after i (stepA τ i op)) := by
+      cases hs : stepA τ i op with
+      | ok j => exact C16_angle_step_inRange τ i hi op j hs
+      | error e => exact hi
+    obtain ⟨h1, h2⟩ := ih _ hnext
+    refine ⟨h1, ?_⟩
+    intro r hr j hj
+    simp only [runOpsA, List.mem_cons] at hr
+    rcases hr with hr | hr
+    · subst hr; exact C16_angle_step_inRange τ i hi op j hj
+    · exact h2 r hr j hj
+
+/-- The setters do not re-check the length: an object whose bounds were moved to a length ≥ τ (outside the
+    property's quantifier) reports every angle as a member — which is still what the set `{θ | ∃ k, θ+kτ ∈ [lo,hi]}` is. -/
+theorem C16_angle_long_all (τ ε : Rat) (hτ : 0 < τ) (hε0 : 0 ≤ ε) (i : I) (hl : τ ≤ i.hi - i.lo) (θ : Rat) :
+    containsAngle τ ε i θ = true := by
+  have h1 := wrap_lt hτ (θ - i.lo)
+  simp only [containsAngle, Bool.or_eq_true, decide_eq_true_eq]
+  left; linarith
+
 /-! ### non-vacuity -/
 
 example : Valid ⟨1, 3⟩ := by norm_num [Valid]
@@ -465,5 +716,11 @@ example : containsAngle 6 0 ⟨0, 4⟩ (-7) = false := by decide +kernel
 example : containsAngle 6 0 ⟨0, 4⟩ (-3) = true := by decide +kernel
 example : mkAngle 6 7 8 = .ok ⟨1, 2⟩ := by decide +kernel
 example : mul ⟨1, 3⟩ (-2) = .ok ⟨-6, -2⟩ := by decide +kernel
+
+example : runOps (fun _ x => x) ⟨0, 4⟩ [.setStart 5, .setStart 1, .mul (-2), .div 0, .inter ⟨-5, 0⟩] =
+    [.error .assert, .ok ⟨1, 4⟩, .ok ⟨-8, -2⟩, .error .zeroDiv, .ok ⟨-5, -2⟩] := by decide +kernel
+example : setStartAngle 6 ⟨0, 1⟩ (-6) = .ok ⟨-6, 1⟩ := by decide +kernel     -- length 7 ≥ τ is not re-checked
+example : setStartAngle 6 ⟨0, 1⟩ (-7) = .error .assert := by decide +kernel
+example : runOpsA 6 ⟨0, 1⟩ [.setEnd 7, .setEnd 5, .add 3] = [.error .assert, .ok ⟨0, 5⟩, .ok ⟨-3, 2⟩] := by decide +kernel
 
 end CR.Iv
